@@ -199,6 +199,25 @@ for f, m in _C11:
              "nondeterministic Ok/Err (verdicts: true/false/Err) and writes an arbitrary byte string of every length 0..=4; unwind 10",
       units=["rln::ffi::" + f, "rln::ffi::ProcessArg", "rln::ffi::Buffer (From conversions)", "spy for rln::public::RLN::" + m])
 
+
+# ------------------------------------------------------------------------------------------------
+# C20 — graph evaluation (real rln crate, h_core) + per-node storage round trip
+# ------------------------------------------------------------------------------------------------
+for nm, what in (("terncond_inputs", "[in0, in1, in0-in1, TernCond(n0,n1,n2)] outputs (n3,n2)"), ("terncond_op_cond", "[in1, mont-const, n1+n0, TernCond(n2,n0,n1)] outputs (n3,n0)"),
+                 ("sub_neg_chain", "[in1, -n0, n1-n0, -n2] outputs (n2,n3)"), ("const_lt", "[const, in0, n0<n1, n1<n2] outputs (n3,n1)"),
+                 ("shr_band", "[mont-const, const, n1>>n0, n2>>n1] outputs (n0,n3)"), ("neq_uno", "[in0, -n0, n0!=n1, -n1] outputs (n1,n3)")):
+    K("C20", "h_core", "c20_eval::proofs::c20_evaluate_" + nm, tier="quick", mem_gb=6, timeout_s=900,
+      bounds="4-node graph of FIXED shape " + what + "; every VALUE (2 inputs, constants) is an arbitrary canonical field element (254 bits); oracle = direct reference interpretation with the circom "
+             "operator semantics of vlib; symbolic graph SHAPES (operand indices chosen by the solver) exhaust 62 GB in CBMC and are outside the claim; unwind 8",
+      units=[G + "evaluate", G + "u256_to_fr", G + "Operation::eval_fr", G + "UnoOperation::eval_fr", G + "TresOperation::eval_fr"], replay_body=None)
+K("C20", "h_core", "c20_eval::proofs::c20_node_roundtrip", tier="quick", mem_gb=4, timeout_s=900,
+  bounds="one node of any written kind (Input / UnoOp / Op / TresOp), any of the 20+2+1 operators, operand indices: any value below 2^32 (larger indices are truncated by `as u32`: outside the claim)",
+  units=["rln::circuit::iden3calc::storage::<impl From<&graph::Node> for proto::node::Node>", "rln::circuit::iden3calc::storage::<impl From<proto::Node> for graph::Node>",
+         "From<&Operation> for proto::DuoOp", "From<proto::DuoOp> for Operation", "proto::DuoOp::try_from(i32)"])
+K("C03", "h_rln", "c02_c13::proofs_c03::c03_recover_logic", tier="quick", mem_gb=12, timeout_s=2400,
+  bounds="two 288-byte messages, arbitrary content; compute_id_secret replaced by a recording stub returning an arbitrary canonical secret (zero included) or an error; leaf codec by contract",
+  units=[PUB + "recover_id_secret", "rln::protocol::deserialize_proof_values"])
+
 # ------------------------------------------------------------------------------------------------
 ASSUMPTIONS = {
     "_common": [
@@ -226,6 +245,10 @@ ASSUMPTIONS = {
             "'same method, same context, same arguments in the same positions, same order' plus determinism of the Rust API in its arguments (C06/C08/C15 cover those methods)",
             "constructors new / new_with_params (key parsing, Box::into_raw) and ownership of the leaked output buffers are outside the claim",
             "only the non-stateless feature set (the mounted build) is covered; the stateless build shares the same macros and wrapper bodies"],
+    "C20": ["graph SHAPES are concrete per harness (six shapes covering every node kind, every operand position, inputs/constants/Montgomery constants, outputs in non-trivial order); values are fully symbolic",
+            "input placement (populate_inputs / get_inputs_buffer over std HashMap<String,..>) and the whole-container protobuf round trip (prost framing, metadata map) are outside the claim: "
+            "std HashMap and prost's allocation-heavy decoding are out of reach of CBMC here; MontConstant nodes' byte round trip goes through num-bigint (out of reach) and is outside too",
+            "operator kernels themselves are C19's subject"],
     "C19": [
         "oracle written from circom's documentation in 256-bit limb arithmetic (engine_k/vlib/vlib.rs)",
         "values of Mul/Div/Pow (true field products) and Idiv/Mod quotients beyond the multiplication-free lemmas are outside the claim",
